@@ -212,10 +212,20 @@ func getSegmentStartsFromVideo(parsedMp4 *mp4.File, segDurMS uint32) (timeScale 
 	stts := refTrak.Mdia.Minf.Stbl.Stts
 	stss := refTrak.Mdia.Minf.Stbl.Stss
 	ctts := refTrak.Mdia.Minf.Stbl.Ctts
-	syncPoints = make([]syncPoint, 0, stss.EntryCount())
+	var syncSampleNrs []uint32
+	if stss != nil {
+		syncSampleNrs = stss.SampleNumber
+	} else { // No stss box means that all samples are sync samples
+		nrSamples := refTrak.Mdia.Minf.Stbl.Stsz.SampleNumber
+		syncSampleNrs = make([]uint32, 0, nrSamples)
+		for nr := uint32(1); nr <= nrSamples; nr++ {
+			syncSampleNrs = append(syncSampleNrs, nr)
+		}
+	}
+	syncPoints = make([]syncPoint, 0, len(syncSampleNrs))
 	var segmentStep = uint32(uint64(segDurMS) * uint64(timeScale) / 1000)
 	var nextSegmentStart uint32 = 0
-	for _, sampleNr := range stss.SampleNumber {
+	for _, sampleNr := range syncSampleNrs {
 		decodeTime, _ := stts.GetDecodeTime(sampleNr)
 		presTime := int64(decodeTime)
 		if ctts != nil {
